@@ -49,6 +49,8 @@ def cases(ctx):
         yield {"kind": "single", "seed": rng.getrandbits(32), "feats": rng.choice(subs)}
     for i in range(ctx.per_shard(ctx.pick(12, 1200))):
         yield {"kind": "links", "seed": rng.getrandbits(32), "feats": rng.choice(subs), "nfiles": rng.randint(2, 8)}
+    for i in range(ctx.per_shard(ctx.pick(8, 600))):
+        yield {"kind": "dotdot", "seed": rng.getrandbits(32), "feats": rng.choice(subs), "nfiles": rng.randint(1, 5)}
     for i in range(ctx.per_shard(ctx.pick(2, 48))):
         yield {"kind": "fdlimit", "seed": rng.getrandbits(32), "nfiles": rng.choice([60, 90])}
     for i in range(ctx.per_shard(ctx.pick(12, 1200))):
@@ -188,6 +190,8 @@ def check_case(ctx, case):
             return _nested(ctx, case, nc, wd)
         if case["kind"] == "links":
             return _links(ctx, case, nc, wd)
+        if case["kind"] == "dotdot":
+            return _dotdot(ctx, case, nc, wd)
         if case["kind"] == "fdlimit":
             return _fdlimit(ctx, case, nc, wd)
         raise HarnessError("unknown kind")
@@ -599,6 +603,45 @@ def _links(ctx, case, nc, wd):
     ctx.distinct(("links", case["seed"], tuple(feats)))
 
 
+def _dotdot(ctx, case, nc, wd):
+    """-i / -o spelled with '..' right after a symbolic link to a directory (sites/current/../configs): the operating
+    system resolves the link first, so the path means <link target>/../configs - and that is where files are read and written."""
+    rng = random.Random(case["seed"])
+    opts = make_opts(rng)
+    feats = case["feats"]
+    tree = gen_tree(rng, opts, case["nfiles"])
+    real_parent = os.path.join(wd, "archive", "2026")
+    os.makedirs(os.path.join(real_parent, "snapshot"))
+    os.makedirs(os.path.join(wd, "sites"))
+    os.symlink(os.path.join(real_parent, "snapshot"), os.path.join(wd, "sites", "current"))
+    materialise(tree, os.path.join(real_parent, "configs"))
+    os.makedirs(os.path.join(wd, "sites", "configs"))  # a decoy where a textual collapse of 'current/..' would look
+    src = os.path.join(wd, "sites", "current", "..", "configs")
+    dst = os.path.join(wd, "sites", "current", "..", "anon") if rng.random() < 0.6 else os.path.join(wd, "plainout")
+    w, errs, exc = run_files(nc, src, dst, opts, feats)
+    w0, errs0, exc0 = run_files(nc, os.path.join(real_parent, "configs"), os.path.join(wd, "refout"), opts, feats)
+    ctx.ev()
+    ctx.count("trees_run")
+    ctx.count("dotdot_after_symlink_runs")
+    tag = "input %r output %r, feats=%s" % (os.path.relpath(src, wd), os.path.relpath(dst, wd), "+".join(feats))
+    if exc is not None or errs or exc0 is not None or errs0:
+        ctx.violation(case, "run-failed-on-dotdot-path", "%s: %r %r" % (tag, exc or exc0, (errs or errs0)[:2]))
+        return
+    got = {k: v for k, v in fsmon.snapshot(os.path.realpath(dst)).items() if v[0] == "file"}
+    want = {k: v for k, v in fsmon.snapshot(os.path.join(wd, "refout")).items() if v[0] == "file"}
+    ctx.count("entry_point_comparisons")
+    if set(got) != set(want) or any(got[k][2] != want[k][2] for k in want):
+        ctx.violation(case, "output-missing" if set(want) - set(got) else "outputs-differ-for-dotdot-path",
+                      "%s: outputs under the resolved location %r differ from the run with plain paths (missing %r)"
+                      % (tag, os.path.relpath(os.path.realpath(dst), wd), sorted(set(want) - set(got))[:3]))
+        return
+    stray = [k for k in fsmon.snapshot(os.path.join(wd, "sites")) if k not in (".", "current", "configs")]
+    if stray:
+        ctx.violation(case, "unexpected-path-written", "%s: written next to the link instead of next to its target: %r" % (tag, stray[:3]))
+        return
+    ctx.distinct(("dotdot", case["seed"], tuple(feats)))
+
+
 _FD_CHILD = """
 import resource, sys
 resource.setrlimit(resource.RLIMIT_NOFILE, (%d, %d))
@@ -650,6 +693,9 @@ def _nested(ctx, case, nc, wd):
     w0, errs0, exc0 = run_files(nc, src, ref, opts, feats)
     outname = rng.choice(["anonymized", "out dir", "zz", "0out"])
     dst = os.path.join(src, outname)
+    if rng.random() < 0.5:
+        os.makedirs(dst)  # the (still empty) output directory was created beforehand
+        ctx.count("nested_output_dir_preexisting")
     before = fsmon.snapshot(src)
     w, errs, exc = run_files(nc, src, dst, opts, feats)
     after = fsmon.snapshot(src)
@@ -660,7 +706,7 @@ def _nested(ctx, case, nc, wd):
     if exc is not None or errs or exc0 is not None or errs0:
         ctx.violation(case, "nested-output-run-failed", "%s: %r %r" % (tag, exc or exc0, (errs or errs0)[:2]))
         return
-    changed = [k for k in before if after.get(k) != before[k] and k != "."]
+    changed = [k for k in before if after.get(k) != before[k] and k not in (".", outname)]
     if changed:
         ctx.violation(case, "input-tree-modified", "%s: %r changed" % (tag, changed[:3]))
         return
